@@ -24,7 +24,8 @@ Record case := {
   k_nls : option (list Q);                  (* scales of the non-linear constraint transform of the context *)
   k_raw : config;
   k_out : option config;                    (* None = ValidationError *)
-  k_same : bool;                            (* model_validate(validated object) is that object *)
+  k_same : bool;                            (* model_validate(validated object), without and with the context, yields a
+                                               configuration with the identical dump and leaves the object unchanged *)
   k_dump : option config;                   (* model_validate(model_dump(round_trip=True)) *)
   k_json : option config;                   (* model_validate(json.loads(json.dumps(dump))) *)
   k_spell : option config;                  (* the same dictionary spelled differently (tuples, ndarrays, numpy scalars, enum
